@@ -138,4 +138,7 @@ theorem WInv.setCif {w : World} (h : WInv w) (c : Nat) (s1 : Store) (h1 : InvS s
 
 theorem WInv.live {w : World} (h : WInv w) {c : Nat} {s : Store} (hl : w.liveC c = some s) : InvS s := h c s hl
 
+theorem getD_set_ne' (l : List (Option Store)) (c c' : Nat) (x : Option Store) (h : c' ≠ c) : (l.set c x).getD c' none = l.getD c' none := by
+  simp [List.getD, List.getElem?_set_ne (Ne.symm h)]
+
 end CifModel.Store
